@@ -1,6 +1,7 @@
 import Gv.Oracle.Common
 import Gv.Spec.Fmt
 import Gv.Model.Fmt.Fasta
+import Gv.Model.Fmt.Phylip
 import Gv.Gen.FmtFacts
 /-!
 Oracle handlers for the alignment formats (C02 round trips, C03 parser outcomes).
@@ -86,6 +87,10 @@ def modelParse (fmt : String) (o : POpts) (bs : List Byte) : Option PRes :=
   if !allAscii bs then none else
   match fmt with
   | "fasta" => some (liftOutcome (Fasta.parse Gen.FmtFacts.fasta_rejects_empty o bs))
+  | "phylip" =>
+    match Phylip.parseOne Gen.FmtFacts.phylip_allocates_from_header o { inp := bs } with
+    | .ok (.slow, _) => none      -- allocation of 2^27 … 2^44 entries: machine dependent, not compared
+    | r => some (Phylip.toOutcome r)
   | _ => none
 
 /-- what `buildAlign` of the harness does: AddSequence one by one under IGNORE_NONE -/
@@ -100,6 +105,7 @@ def modelWrite (fmt : String) (_w : WOpts) (_alphabet : Nat) (b : Bag) : Option 
   if !(b.rows.all fun r => allAscii r.1 && allAscii r.2) then none else
   match fmt with
   | "fasta" => some (Fasta.write Gen.c_FASTA_LINE.toNat b.rows)
+  | "phylip" => some (Phylip.write _w.strict _w.oneline _w.noblock b.rows)
   | _ => none
 
 /-! ### C03 predicate on the implementation's outcome -/
@@ -196,6 +202,20 @@ def expectAln (rows : XRows) : String :=
   let l := match rows with | r :: _ => r.2.length | [] => 0
   s!"ok {autoAlphabet (rows.map (·.2))} {l} {encXRows rows}"
 
+def encMulti (als : List Aln) (ok : Bool) : String :=
+  let body := if als.isEmpty then "_" else ";".intercalate (als.map fun a => (encAln a).replace " " "/")
+  s!"multi {als.length} {body} end={if ok then "ok" else "err"}"
+
+def modelMulti (o : POpts) (bs : List Byte) : String :=
+  if !allAscii bs then "unmodelled" else
+  match Phylip.parseMulti Gen.FmtFacts.phylip_allocates_from_header o (bs.length + 2) { inp := bs } [] with
+  | .done als ok => encMulti als ok
+  | .slow => "unmodelled"
+  | .stop .exit => "exit:1"
+  | .stop .panic => "panic"
+  | .stop .hang => "hang"
+  | .stop .error => "err"
+
 def handle : Handler := fun op args impl =>
   match op, args with
   | "parse", ["partition", len, hex] => do
@@ -211,8 +231,8 @@ def handle : Handler := fun op args impl =>
     some ⟨m, c03Verdict fmt o bs impl⟩
   | "parsemulti", [o, hex] => do
     let o ← decPOpts o
-    let _ ← unhexz hex
-    some ⟨"unmodelled", multiVerdict o impl⟩
+    let bs ← unhexz hex
+    some ⟨canon (modelMulti o bs) impl, multiVerdict o impl⟩
   | "auto", [_strict, hex] => do
     let bs ← unhexz hex
     -- the detected format is reported in front of the outcome
@@ -293,7 +313,12 @@ def handle : Handler := fun op args impl =>
         let exp := ";".intercalate (als.map fun r => ((expectAln r).drop 3).toString.replace " " "/")
         verdictOf (impl == s!"multi {als.length} {exp} end=ok") "multi-phylip-roundtrip"
       else "na"
-    some ⟨"unmodelled", verdict⟩
+    let m := match als.mapM buildRows with
+      | none => "err-build"
+      | some bags =>
+        if !(als.all fun a => a.all fun r => allAscii r.1 && allAscii r.2) then "unmodelled" else
+        canon (modelMulti o (bags.flatMap fun b => Phylip.write w.strict w.oneline w.noblock b.rows)) impl
+    some ⟨m, verdict⟩
   | "chain", [steps, alpha, rows] => do
     let rows ← decXRows rows
     let st ← (steps.splitOn ",").mapM fun s =>
